@@ -18,6 +18,9 @@ func FuzzStatic(f *testing.F) {
 	kinds := []string{"StaticDir", "StaticFS", "StaticFiles", "StaticFile"}
 	exts := []string{"css|js", "html", "css", "js|html|txt"}
 	f.Fuzz(func(t *testing.T, sel byte, raw string) {
+		if len(raw) > 400 {
+			return
+		}
 		s := setup{kind: kinds[int(sel)%4], prefix: "/assets", exts: exts[int(sel>>2)%4], encoded: sel&16 != 0}
 		if s.kind == "StaticFile" {
 			s.prefix = "/assets/one.css"
